@@ -107,7 +107,7 @@ fn quake1() {
     let mut e = Enc::new();
     e.le32(0xFFFF_FFFF).bytes(b"n");
     e.bytes(b"\\hostname\\Nm\\map\\M\\maxclients\\8\\*version\\2.4\n");
-    e.bytes(b"1 12 34 56 \"Al\" \"base\" 4 ").u8(d).bytes(b"\n");
+    e.bytes(b"1 65535 34 56 \"Al\" \"base\" 4 ").u8(d).bytes(b"\n"); // the largest score of the u16 field
     world().push_data(e.v);
     let r = quake::one::query(&addr, None);
     match &r {
@@ -115,7 +115,7 @@ fn quake1() {
             assert!(x.name == "Nm" && x.map == "M" && x.players_maximum == 8);
             assert!(x.players.len() == 1 && x.players_online == 1);
             let p = &x.players[0];
-            assert!(p.id == 1 && p.score == 12 && p.time == 34 && p.ping == 56);
+            assert!(p.id == 1 && p.score == 65535 && p.time == 34 && p.ping == 56);
             assert!(p.name == "Al" && p.skin == "base" && p.color_primary == 4);
             assert!(p.color_secondary == d - b'0');
             kani::cover!(true, "quake 1 status decoded");
@@ -201,6 +201,39 @@ fn quake3_empty_value() {
     core::mem::forget(r);
 }
 c05!(c05_quake3_empty_value_in_the_middle, quake3_empty_value());
+
+/// A reply that carries every variable under both spellings: the primary
+/// spelling fills the typed field, the alternate one is not consumed and stays
+/// in the unused entries unchanged.
+#[cfg(kani)]
+fn quake3_both_spellings() {
+    let addr = any_addr_v4();
+    let mut e = Enc::new();
+    e.le32(0xFFFF_FFFF).bytes(b"statusResponse\n");
+    e.bytes(b"\\hostname\\Nm\\sv_hostname\\Alt\\mapname\\M\\map\\m2\\maxclients\\16\\sv_maxclients\\8\\version\\1\\*version\\2\n");
+    world().push_data(e.v);
+    let r = quake::three::query(&addr, None);
+    match &r {
+        Ok(x) => {
+            assert!(x.name == "Nm" && x.map == "M" && x.players_maximum == 16);
+            assert!(x.game_version.as_deref() == Some("1"));
+            assert!(x.unused_entries.len() == 4);
+            assert!(x.unused_entries.get("sv_hostname").map(|v| v == "Alt").unwrap_or(false));
+            assert!(x.unused_entries.get("map").map(|v| v == "m2").unwrap_or(false));
+            assert!(x.unused_entries.get("sv_maxclients").map(|v| v == "8").unwrap_or(false));
+            assert!(x.unused_entries.get("*version").map(|v| v == "2").unwrap_or(false));
+        }
+        Err(_) => assert!(false),
+    }
+    core::mem::forget(r);
+}
+#[cfg(kani)]
+#[kani::proof]
+#[kani::unwind(110)]
+#[kani::stub(alloc::fmt::format, stub_format)]
+#[kani::stub(core::str::from_utf8, stub_from_utf8)]
+#[kani::stub(core::slice::memchr::memchr, stub_memchr)]
+fn c05_quake3_both_spellings() { quake3_both_spellings() }
 
 /// Quake 2 / 3 player lines with unusual quoting (concrete instances; a symbolic
 /// name token - even one ranging over {quote, letter}^3 - makes the split
